@@ -733,6 +733,10 @@ impl Check for C04 {
             "sole:R-DOC-PARAMETER",
         ]
     }
+    fn fuzz_families(&self, _tier: Tier) -> Vec<(&'static str, u64)> {
+        // libFuzzer runs per job (16 jobs), sized from the measured speed of the instrumented build
+        vec![("injected", 12000)]
+    }
     fn families(&self, tier: Tier) -> Vec<Family<'_>> {
         let cfg = GenCfg {
             max_files: 2,
